@@ -272,7 +272,7 @@ class Geometry(DaeObject):
         for prim in self.primitives:
             for node in prim.xmlnode.findall(tag('input')):
                 src = node.get('source')[1:]
-                if src == vert_ref:
+                if node.get('semantic') == 'VERTEX' and src == vert_ref:
                     node.set('source', '#%s' % vert_src)
 
         self.xmlnode.set('id', self.id)
